@@ -1255,6 +1255,22 @@ impl Sim for SrvSim {
             };
             sc.accept_errors = Some((at.saturating_sub(*rng.pick(&[0u64, 0, 1_000_000])), *rng.pick(&[1u32, 40, 300, 1000])));
         }
+        // ... and one run in fifty is a QUEUED BURST: every worker is stuck in a blocking handler while
+        // 8-14 complete requests per worker pile up in its inbox, and graceful shutdown is called before
+        // any of them has been started — each of them had been received before the call
+        if rng.chance(1, 50) {
+            let workers = rng.usize(1, 2);
+            let hold = rng.range(20, 60);
+            let mut conns: Vec<ConnScript> = (0..workers)
+                .map(|_| ConnScript { when: When::At { ns: 0 }, kind: ConnKind::Full, handler_ms: hold, fault: ConnFault::BlockingHandler, cap_in: 65_536, cap_out: 65_536, listener: 0 })
+                .collect();
+            let q = rng.usize(8, 14) * workers;
+            for _ in 0..q {
+                conns.push(ConnScript { when: When::At { ns: 1_000_000 + rng.below(1_000_000) }, kind: ConnKind::Full, handler_ms: rng.range(0, 2), fault: ConnFault::None, cap_in: 65_536, cap_out: 65_536, listener: 0 });
+            }
+            let shutdown = Some(ShutdownScript { at_ns: 5_000_000 + rng.below(5_000_000), mode: Mode::Graceful { timeout_ms: *rng.pick(&[5_000, 10_000, 60_000]) }, second: None, waiter: rng.chance(1, 3) });
+            return Script { workers, listeners: 1, conns, shutdown, weights: Vec::new(), preempt_den: *rng.pick(&[4, 8, 1000]), net_preempt: false, accept_errors: None };
+        }
         sc
     }
 
